@@ -502,7 +502,7 @@ def run(tier):
         return rep.finish()
     n1 = check_xxh(rep, tier, rng, drv, run_)
     n2 = check_bloom(rep, tier, rng, drv, run_)
-    if tier == "thorough" and not rep.proof_error:
+    if tier == "thorough" and not rep.proof_error and "coqchk" not in rep.cov:
         # independent re-check of the compiled cone by coqchk (also reports axioms / unsafe flags)
         p = vlib.sh(["timeout", "1500", "coqchk", "-silent", "-o", "-Q", "theories", "Carquet",
                      "Carquet.Props.Properties_C20"], cwd=vlib.COQ)
